@@ -1,8 +1,8 @@
 ------------------------------ MODULE DRAMBank ------------------------------
 (* C22 — the command-legality oracle of DRAMRules.tla, model-checked on a toy:
    two banks of one rank (same bank group or different bank groups, chosen by the
-   cfg), two rows, a small timing record, MaxT cycles, at most one command per
-   cycle.
+   cfg; five banks and activates only for the four-activate window), two rows, a
+   small timing record, MaxT cycles, at most one command per cycle.
 
    The monitor DRAMTrace.tla judges a recorded command stream incrementally: per
    bank Closed | Open(row) and the issue cycle of the latest command of each
@@ -35,7 +35,8 @@ CONSTANTS MaxT, T, Fam, BankKeys, Rows, CmdKinds, Free
 VARIABLES now, issued, banks, acts, hist, ok, prog
 vars == <<now, issued, banks, acts, hist, ok, prog>>
 
-(* toy numbers: every rule has its own, distinguishable minimum *)
+(* toy numbers: every minimum is at least 2 where a rule must be observable with one
+   command per cycle, and small enough for every rule to bite within MaxT <= 6 *)
 ToyT == [t_al |-> 0, t_cwl |-> 0, burst_cycle |-> 1, t_rcd |-> 2, t_rcdrd |-> 3, t_rcdwr |-> 2,
          t_ras |-> 3, t_rp |-> 2, t_rc |-> 6, t_rtp |-> 2, t_wr |-> 1,
          t_rrds |-> 2, t_rrdl |-> 3, t_ccds |-> 2, t_ccdl |-> 3, t_wtrs |-> 1, t_wtrl |-> 2,
